@@ -1,5 +1,61 @@
+import SamVerif.Model.Lexer
 import Driver.Util
-/-! Line-protocol driver for property C05 (model side). Not implemented yet. -/
+/-! Protocol `lex` (C05, C14): runs the scanner model `SamVerif.Lexer.tokenize` on hex-encoded text.
+Answer format = `harness/src/bin/c05.rs`:
+`T <kind>:<hextext>@l0.c0-l1.c1;... E <l0.c0-l1.c1:code>,... [P]`. -/
+namespace Driver.C05
+open SamVerif.Lexer Driver
+
+def kindName : Kind → String
+  | .kw => "kw" | .op => "op" | .upper => "upper" | .lower => "lower" | .str => "str"
+  | .int => "int" | .line => "line" | .block => "block" | .doc => "doc" | .error => "error"
+
+def codeName : ErrCode → String
+  | .esc => "esc" | .tok => "tok" | .int => "int"
+
+/-- rank = order of the messages as Rust strings ("Invalid escape…" < "Invalid token." < "Not a…") -/
+def codeRank : ErrCode → Nat
+  | .esc => 0 | .tok => 1 | .int => 2
+
+def showSpan (a b : Pos) : String := s!"{a.line}.{a.col}-{b.line}.{b.col}"
+
+def showTok (t : Token) : String :=
+  kindName t.kind ++ ":" ++ hexOfBytes t.text ++ "@" ++ showSpan t.start t.stop
+
+def errKey (e : Err) : List Nat := [e.start.line, e.start.col, e.stop.line, e.stop.col, codeRank e.code]
+
+def keyLt : List Nat → List Nat → Bool
+  | a :: as, b :: bs => if a < b then true else if b < a then false else keyLt as bs
+  | _, _ => false
+
+/-- `ErrorSet` is a `BTreeSet`: sorted, no duplicates -/
+def insertErr (e : Err) : List Err → List Err
+  | [] => [e]
+  | x :: xs =>
+    if keyLt (errKey e) (errKey x) then e :: x :: xs
+    else if errKey e == errKey x then x :: xs
+    else x :: insertErr e xs
+
+def showResult (r : Result) : String :=
+  let toks := if r.toks.isEmpty then "-" else ";".intercalate (r.toks.map showTok)
+  let errs := r.errs.foldl (fun acc e => insertErr e acc) []
+  let es := if errs.isEmpty then "-" else
+    ",".intercalate (errs.map fun e => showSpan e.start e.stop ++ ":" ++ codeName e.code)
+  let tail := match r.fin with
+    | .ok => ""
+    | .panic => " P"
+    | .fuel => " FUEL"
+  s!"T {toks} E {es}{tail}"
+
+def step (st : Unit) (line : String) : Unit × String :=
+  match words line with
+  | ["lex", h] => (st, showResult (tokenize (bytesOfHex h)))
+  | _ => (st, "bad-op")
+
+def run : IO Unit := runLoop () step
+
+end Driver.C05
+
 def main (_args : List String) : IO UInt32 := do
-  IO.eprintln "drv-c05: not implemented yet"
-  return 2
+  Driver.C05.run
+  return 0
